@@ -173,6 +173,35 @@ func judge(b *built, chunks []*rag.Chunk, layoutView bool) judged {
 				j.bad["pages"] = verdict{"pages:range-outside-section", fmt.Sprintf("chunk %d (%s..) reports pages %d-%d, its section lies on pages %d-%d", i, toks[0], ps, pe, lo, hi)}
 			}
 		}
+		if _, done := j.bad["pages"]; !done {
+			// exactly the pages of the elements whose words the chunk holds. Layout view: the chunk's
+			// section heading (SectionTitle, "[title]" prefix of TextWithContext) may be counted as part of it.
+			cmin, cmax := b.elems[els[0]].pageNo, b.elems[els[0]].pageNo
+			for _, ei := range els[1:] {
+				if p := b.elems[ei].pageNo; p < cmin {
+					cmin = p
+				} else if p > cmax {
+					cmax = p
+				}
+			}
+			exact := ps == cmin && pe == cmax
+			if !exact && layoutView {
+				if sh := b.elems[els[0]].sect; sh >= 0 {
+					hp := b.elems[sh].pageNo
+					lo2, hi2 := cmin, cmax
+					if hp < lo2 {
+						lo2 = hp
+					}
+					if hp > hi2 {
+						hi2 = hp
+					}
+					exact = ps == lo2 && pe == hi2
+				}
+			}
+			if !exact {
+				j.bad["pages"] = verdict{"pages:range-wider-than-content", fmt.Sprintf("chunk %d (%s..) reports pages %d-%d, the elements whose words it holds lie on pages %d-%d", i, toks[0], ps, pe, cmin, cmax)}
+			}
+		}
 		if _, done := j.bad["path"]; !done {
 			got := trimAll(c.Metadata.SectionPath)
 			okAll := true
